@@ -85,6 +85,9 @@ pub struct CodeIds {
     pub router: u64,
     pub cw20: u64,
     pub proxy: u64,
+    /// the pair code stored a second time (another code id, the same code): a migration target and an
+    /// alternative `pair_code_id` for the factory configuration
+    pub pair_alt: u64,
 }
 
 fn store_codes(app: &mut App) -> CodeIds {
@@ -94,6 +97,7 @@ fn store_codes(app: &mut App) -> CodeIds {
         router: app.store_code(code_router()),
         cw20: app.store_code(code_cw20()),
         proxy: app.store_code(code_proxy()),
+        pair_alt: app.store_code(code_pair()),
     }
 }
 
@@ -240,6 +244,8 @@ pub enum Call {
     Proxy { msgs: Vec<CosmosMsg> },
     /// arbitrary contract + JSON message (forged internal calls)
     Raw { contract: String, msg: Binary },
+    /// chain-level migration of a contract by its admin (`{}` as the migrate message)
+    Migrate { contract: String, code_id: u64 },
 }
 
 #[derive(Clone, Debug, Serialize, Deserialize)]
@@ -638,6 +644,7 @@ impl World {
                     sender,
                     CosmosMsg::Wasm(cosmwasm_std::WasmMsg::Execute { contract_addr: contract, msg, funds }),
                 ),
+                Call::Migrate { contract, code_id } => app.migrate_contract(sender, Addr::unchecked(contract), &Empty {}, code_id),
             }
         }));
         match res {
@@ -715,7 +722,14 @@ impl World {
         let bal = cfg.initial_balance;
         let mut app = AppBuilder::new().build(|router, _, storage| {
             for h in holders.iter() {
-                let coins: Vec<Coin> = natives.iter().map(|d| Coin { denom: d.clone(), amount: Uint128::new(bal) }).collect();
+                let mut coins: Vec<Coin> = natives.iter().map(|d| Coin { denom: d.clone(), amount: Uint128::new(bal) }).collect();
+                // ... and of the upper-case LOOK-ALIKE of every denom (bank denoms are case sensitive: a different coin)
+                for d in natives.iter() {
+                    let up = d.to_uppercase();
+                    if up != *d && !natives.contains(&up) && !coins.iter().any(|c| c.denom == up) {
+                        coins.push(Coin { denom: up, amount: Uint128::new(bal) });
+                    }
+                }
                 if !coins.is_empty() {
                     router.bank.init_balance(storage, h, coins).unwrap();
                 }
@@ -737,7 +751,7 @@ impl World {
         let codes = store_codes(&mut app);
         let e = |x: anyhow::Error| format!("{:#}", x);
         let factory = app
-            .instantiate_contract(codes.factory, owner.clone(), &haloswap::factory::InstantiateMsg { pair_code_id: codes.pair, token_code_id: codes.cw20 }, &[], "factory", None)
+            .instantiate_contract(codes.factory, owner.clone(), &haloswap::factory::InstantiateMsg { pair_code_id: codes.pair, token_code_id: codes.cw20 }, &[], "factory", Some(owner.to_string()))
             .map_err(e)?;
         let router = app
             .instantiate_contract(codes.router, owner.clone(), &haloswap::router::InstantiateMsg { halo_factory: factory.to_string() }, &[], "router", None)
